@@ -243,7 +243,8 @@ Section Conv.
     map_assign_loop kk vk [] kvs.
 
   (* one store attempt at a position: (outcome, field content afterwards).
-     k is the kind of the value position; for PMapKey the value kind is int64. *)
+     k is the kind of the value position (for the map positions: of the map's
+     values; the key kind is string except for PMapKey, which carries it). *)
   Definition lift (before : content) (mk : list sval -> content) (o : outcome (list sval)) : sout * content :=
     match o with Stored l => (SOk, mk l) | Rejected => (SErr, before) | HostPanic => (SPanic, before) end.
   Definition liftm (before : content) (o : outcome (list (sval * sval))) : sout * content :=
@@ -261,7 +262,7 @@ Section Conv.
         | (Rejected, c) => (SErr, CM c)
         | (HostPanic, c) => (SPanic, CM c)
         end
-    | PMapKey kk v, CM m => liftm before (map_set kk KInt64 m val v)
+    | PMapKey kk v, CM m => liftm before (map_set kk k m val v)
     | _, _ => (SErr, before)
     end.
 End Conv.
